@@ -46,26 +46,41 @@ variable (conj : K → K)
 /-- `uᴴ G v` -/
 def gdot (G : List (List K)) (u v : List K) : K := dotc conj u (mv G v)
 
-/-- successive minimisers `y_1 … y_k` over `x0 + span{v_0 … v_{j-1}}` of `(t−y)ᴴ G (t−y)` -/
-def argmins (G : List (List K)) (basis : List (List K)) (t x0 : List K) : List (List K) :=
-  let rec go (vs : List (List K)) (ws : List (List K × K)) (y : List K) : List (List K) :=
+/-- successive minimisers `y_1 … y_k` over `x0 + span{v_0 … v_{j-1}}` of `(t−y)ᴴ G (t−y)`, each with its
+coefficient list `d` (`y_j = x0 + Σ_i d_i v_i`, length `k`, zero from position `j` on) -/
+def argmins (one : K) (G : List (List K)) (basis : List (List K)) (t x0 : List K) : List (List K × List K) :=
+  let k := basis.length
+  let unit := fun (j : Nat) => (List.range k).map (fun i => if i = j then one else 0)
+  let rec go (vs : List (List K)) (ws : List (List K × K × List K)) (y d : List K) (j : Nat) :
+      List (List K × List K) :=
     match vs with
     | [] => []
     | v :: rest =>
-      let w := ws.foldl (fun acc (wi, gi) => vsub acc (vsmul (gdot conj G wi v / gi) wi)) v
+      let wa := ws.foldl (fun (acc : List K × List K) (wga : List K × K × List K) =>
+        let μ := gdot conj G wga.1 v / wga.2.1
+        (vsub acc.1 (vsmul μ wga.1), vsub acc.2 (vsmul μ wga.2.2))) (v, unit j)
+      let w := wa.1
       let g := gdot conj G w w
-      if g = 0 then y :: go rest ws y
+      if g = 0 then (y, d) :: go rest ws y d (j + 1)
       else
         let c := gdot conj G w (vsub t y) / g
         let y' := vadd y (vsmul c w)
-        y' :: go rest (ws ++ [(w, g)]) y'
-  go basis [] x0
+        let d' := vadd d (vsmul c wa.2)
+        (y', d') :: go rest (ws ++ [(w, g, wa.2)]) y' d' (j + 1)
+  go basis [] x0 ((List.range k).map (fun _ => 0)) 0
 
-/-- the definition of the minimiser, checked exactly: `⟨v_i, t − y_j⟩_G = 0` for all `i < j` -/
-def checkCert (G : List (List K)) (basis : List (List K)) (t : List K) (ys : List (List K)) : Bool :=
-  (List.range ys.length).all (fun j =>
-    let y := ys.getD j []
-    (basis.take (j + 1)).all (fun v => gdot conj G v (vsub t y) == 0))
+/-- `x0 + Σ_i d_i v_i` -/
+def combL : List K → List K → List (List K) → List K
+  | x, c :: cs, v :: vs => combL (vadd x (vsmul c v)) cs vs
+  | x, _, _ => x
+
+/-- the definition of the minimiser, checked exactly: `y_j = x0 + Σ_{i<j} d_i v_i` and
+`⟨v_i, t − y_j⟩_G = 0` for all `i < j` -/
+def checkCert (G : List (List K)) (basis : List (List K)) (t x0 : List K) (yds : List (List K × List K)) : Bool :=
+  (List.range yds.length).all (fun j =>
+    let yd := yds.getD j ([], [])
+    (combL x0 (yd.2.take (j + 1)) (basis.take (j + 1)) == yd.1) &&
+    (basis.take (j + 1)).all (fun v => gdot conj G v (vsub t yd.1) == 0))
 
 /-- power basis `g, B g, …, B^{k-1} g` mapped by `P` -/
 def powerBasis (B P : List K → List K) (g : List K) : Nat → List (List K)
@@ -75,6 +90,11 @@ def powerBasis (B P : List K → List K) (g : List K) : Nat → List (List K)
 structure ArgRes (K : Type) where
   xs : List K
   ys : List (List K)
+  /-- coefficients of `y_j − x0` in the power basis -/
+  ds : List (List K)
+  /-- Gram matrix and power basis used (for the verified re-check `certV`) -/
+  G : List (List K)
+  basis : List (List K)
   cert : Bool
   /-- value of the minimised quantity at `x0`, `y_1 … y_k` -/
   vals : List K
@@ -109,9 +129,38 @@ def krylovArgmin (kind : String) (A M : List (List K)) (one : K) (b x0 : List K)
     match sel with
     | none => none
     | some (G, basis) =>
-      let ys := argmins conj G basis xs x0
+      let yds := argmins conj one G basis xs x0
+      let ys := yds.map (·.1)
       let val := fun y => gdot conj G (vsub xs y) (vsub xs y)
-      some ⟨xs, ys, checkCert conj G basis xs ys, (x0 :: ys).map val⟩
+      some ⟨xs, ys, yds.map (·.2), G, basis, checkCert conj G basis xs x0 yds, (x0 :: ys).map val⟩
 end
+
+/-! ### the certificate re-checked with the `Vector` operations the theorems are about (real case)
+`certV` is the checker `Proofs/C07Cert.lean` proves sound: it accepts `(d, y)` only if
+`y = x0 + Σ d_i v_i` and `G (t − y)` is orthogonal to every `v_i`. -/
+section certV
+variable {K : Type} [Add K] [Sub K] [Mul K] [OfNat K 0] [DecidableEq K] {n : Nat}
+
+/-- `x0 + Σ_i d_i v_i` -/
+def combV : Vector K n → List K → List (Vector K n) → Vector K n
+  | x, c :: cs, v :: vs => combV (Vector.zipWith (· + ·) x (v.map (c * ·))) cs vs
+  | x, _, _ => x
+
+def certV (G : Vector (Vector K n) n) (vs : List (Vector K n)) (t x0 : Vector K n) (d : List K)
+    (y : Vector K n) : Bool :=
+  decide (combV x0 d vs = y) &&
+    vs.all (fun v => decide (vdot (fun a => a) v (vmv G (Vector.zipWith (· - ·) t y)) = 0))
+
+/-- all `j`: `(d_j, y_j)` is accepted against the first `j` basis vectors; `false` on any size mismatch -/
+def certAllV (n : Nat) (G basis : List (List K)) (t x0 : List K) (ds ys : List (List K)) : Bool :=
+  match toMat? n G, basis.mapM (toVec? n), toVec? n t, toVec? n x0, ys.mapM (toVec? n) with
+  | some G, some vs, some t, some x0, some ys =>
+    ds.length == ys.length &&
+    (List.range ys.length).all (fun j =>
+      match ys[j]? with
+      | some y => certV G (vs.take (j + 1)) t x0 ((ds.getD j []).take (j + 1)) y
+      | none => false)
+  | _, _, _, _, _ => false
+end certV
 
 end PyamgV.C07
